@@ -341,10 +341,10 @@ func (m *moduleChecker) checkDxResources(op uint64) {
 			if a.Class != b.Class || a.Space != b.Space {
 				continue
 			}
-			m.fire("dxmeta.resources")
+			m.fire("dxmeta.resource-overlap")
 			ae, be := resUpper(a), resUpper(b)
 			if a.LowerBound <= be && b.LowerBound <= ae {
-				m.find("dxmeta.resources", "%s resources %q [%d,%d] and %q [%d,%d] overlap in space %d", a.Class, a.Name, a.LowerBound, ae, b.Name, b.LowerBound, be, a.Space)
+				m.find("dxmeta.resource-overlap", "%s resources %q [%d,%d] and %q [%d,%d] overlap in space %d", a.Class, a.Name, a.LowerBound, ae, b.Name, b.LowerBound, be, a.Space)
 			}
 		}
 	}
@@ -352,7 +352,9 @@ func (m *moduleChecker) checkDxResources(op uint64) {
 		return
 	}
 	// agreement with PSV0
-	key := func(class string, space, lo, hi uint32) string { return fmt.Sprintf("%s space=%d [%d,%d]", class, space, lo, hi) }
+	key := func(class string, space, lo, hi uint32) string {
+		return fmt.Sprintf("%s space=%d [%d,%d]", class, space, lo, hi)
+	}
 	var a, b []string
 	for _, r := range rep.Resources {
 		a = append(a, key(r.Class, r.Space, r.LowerBound, resUpper(r)))
